@@ -24,7 +24,7 @@ META: Dict[str, Any] = {
     "selftest_runs": 5,
     "rule": ("one run = one configuration (0-4 candidate ECU or base variants, 0-3 patterns each, 1-3 "
              "matching parameters, ident services shared or distinct, SNREF / SNPATHREF targets into "
-             "structures and end-of-PDU fields, uint / ASCII / byte-field / float values) x one "
+             "structures and end-of-PDU fields, uint / ASCII / byte-field / float values, service short names that name lists must mangle) x one "
              "deterministic ECU response table x cache on and off (both executed and compared). "
              "Non-trivial: at least 2 candidates and the reference model had to evaluate more than one "
              "matching parameter. Distinct = distinct event-log digest."),
@@ -40,7 +40,7 @@ META: Dict[str, Any] = {
                     "expected values of float parameters are numeric strings"],
 }
 
-LAYOUTS = ["flat", "struct", "field", "ascii", "bytes", "float", "deep", "twopos"]
+LAYOUTS = ["flat", "struct", "field", "ascii", "bytes", "float", "deep", "twopos", "bigfloat"]
 TARGETS = {
     "flat": [("id", False), ("sup", False)],
     "struct": [("info.type", True), ("info.rev", True)],
@@ -48,6 +48,9 @@ TARGETS = {
     "ascii": [("name", False)],
     "bytes": [("raw", False)],
     "float": [("temp", False)],
+    # IEEE doubles of large magnitude that differ by 1.0: clearly different values whatever the
+    # comparison tolerance of small values is
+    "bigfloat": [("level", False)],
     "deep": [("outer.inner.code", True), ("outer.list.v", True)],
     # two positive responses: a short one (only `id`) listed first and a long one (`id`, `sup`); the same bytes are
     # decodable by both, only the second one carries `sup`
@@ -56,6 +59,10 @@ TARGETS = {
 U8 = [0, 1, 2, 3]  # includes the falsy value 0
 ASCII = ["AAA", "BBB", "CCC"]
 BYTES = ["0a0b", "0a0c", "ff00"]
+BIGF = [4000000000.0, 4000000001.0, 4000000002.0, 0.25]
+# short names that a NamedItemList cannot use as they are (keyword, leading digit, member of the list class,
+# taken "_2" suffix)
+MANGLED = ["count", "count_2", "import", "22F18C_ReadSN"]
 DIDS = [0xF190, 0xF191, 0xF1A0, 0x0101]
 
 
@@ -69,7 +76,7 @@ def value_type(layout: str, target: str) -> str:
         return "ascii"
     if layout == "bytes":
         return "bytes"
-    if layout == "float":
+    if layout in ("float", "bigfloat"):
         return "float"
     return "u8"
 
@@ -88,6 +95,9 @@ def encode_pos(did: int, layout: str, vals: Dict[str, Any]) -> bytes:
         return head + bytes.fromhex(vals["raw"])
     if layout == "float":
         return head + bytes([vals["temp_raw"]])
+    if layout == "bigfloat":
+        import struct
+        return head + struct.pack(">d", vals["level"])
     if layout == "deep":
         return head + bytes([vals["outer.inner.code"]]) + bytes(vals["outer.list.v"])
     raise ValueError(layout)
@@ -185,6 +195,8 @@ def gen_values(r, layout: str) -> Dict[str, Any]:
         return {"raw": r.choice(BYTES)}
     if layout == "float":
         return {"temp_raw": r.choice(U8)}
+    if layout == "bigfloat":
+        return {"level": r.choice(BIGF)}
     if layout == "deep":
         return {"outer.inner.code": r.choice(U8), "outer.list.v": [r.choice(U8) for _ in range(r.choice([0, 1, 2]))]}
     raise ValueError(layout)
@@ -192,6 +204,8 @@ def gen_values(r, layout: str) -> Dict[str, Any]:
 
 def gen_expected(r, layout: str, target: str) -> str:
     vt = value_type(layout, target)
+    if layout == "bigfloat":
+        return r.choice(["4000000000.0", "4000000001.0", "4000000002.0", "4000000000", "4e9", "0.25", "4000000003.0"])
     if vt == "u8":
         return r.choice(["0", "1", "2", "3", "3", "4", "01", "zz", ""][:7 if r.random() < 0.9 else 9])
     if vt == "ascii":
@@ -214,14 +228,15 @@ def gen(rs: int, index: int, tier: str) -> Dict[str, Any]:
     did_layout = {str(d): r.choice(enabled_layouts) for d in dids}
     # service naming: by DID (same name <=> same request), unique per variant, or positional (the same
     # name in different variants may stand for different requests)
-    naming = weighted(r, ["by_did", "unique", "positional"], [4, 3, 3])
+    naming = weighted(r, ["by_did", "unique", "positional", "mangled"], [4, 3, 3, 2])
     variants = []
     for vi in range(n_var):
         n_svc = r.randint(1, min(3, n_dids))
         vd = r.sample(dids, n_svc)
         services = []
         for si, d in enumerate(vd):
-            name = {"by_did": f"ident{dids.index(d)}", "unique": f"v{vi}_svc{si}", "positional": f"ident_{si}"}[naming]
+            name = {"by_did": f"ident{dids.index(d)}", "unique": f"v{vi}_svc{si}", "positional": f"ident_{si}",
+                    "mangled": MANGLED[dids.index(d)]}[naming]
             services.append({"name": name, "did": d})
         if kind == "base":
             n_pat = weighted(r, [0, 1], [1, 5])
@@ -271,6 +286,7 @@ def build_candidates(cfg: Dict[str, Any]) -> List[Any]:
         asc = b.dop("asc3", b.slt("A_ASCIISTRING", 24))
         raw2 = b.dop("raw2", b.slt("A_BYTEFIELD", 16))
         flt = b.dop("half", b.slt(bits=8), compu=b.linear("A_UINT32", "A_FLOAT64", 0, 0.5))
+        big = b.dop("big", b.slt("A_FLOAT64", 64))
         item_t = b.structure("item_t", [b.value("v", u8)])
         info_t = b.structure("info_t", [b.value("type", u8), b.value("rev", u8)])
         items_f = b.eopdu_field("items_f", item_t)
@@ -296,6 +312,8 @@ def build_candidates(cfg: Dict[str, Any]) -> List[Any]:
                 body = [b.value("raw", raw2)]
             elif layout == "float":
                 body = [b.value("temp", flt)]
+            elif layout == "bigfloat":
+                body = [b.value("level", big)]
             elif layout == "deep":
                 body = [b.value("outer", outer_t)]
             elif layout == "twopos":
